@@ -991,7 +991,7 @@ fn programs(ctx: &Ctx, env: &Env) {
         T::JumpIf.into(), T::JumpIf.into(), T::HaltIf.into(), T::Halt.into(), S::Repeat.into(), S::Repeat.into(), S::RepeatEnd.into(), S::RepeatEnd.into(), A::RepeatCounter.into(), A::RepeatCounter.into(),
         M::Alloc.into(), M::Store.into(), M::Load.into(), C::Compute.into(), C::ComputeEnd.into(), S::DupFrom.into(), S::Select.into(),
     ];
-    let n = if ctx.thorough { 400_000u64 } else { 60_000 };
+    let n = if ctx.thorough { 400_000u64 } else { 150_000 };
     for seed in 1..=n {
         let id = format!("vmops/random/{seed}");
         if !ctx.want(&id) {
